@@ -78,6 +78,16 @@ def decorate(schema, tape):
         elif kind == "UNION":
             td.directives = apply("UNION")
     schema.explicit_schema_def = t.chance(40)
+    st = tape.sub("stray")
+    if schema.explicit_schema_def:
+        # with an explicit schema definition only the declared operation types are roots: an ordinary
+        # object type that merely carries a default root NAME is not one
+        from simv.model.schema import FieldDef, ObjectDef
+        for attr, nm in (("mutation", "Mutation"), ("subscription", "Subscription")):
+            if getattr(schema, attr) is None and nm not in schema.types and st.chance(15):
+                o = schema.add(ObjectDef(nm))
+                o.fields["stray"] = FieldDef("stray", N("Int"), {})
+                o.fields["stray"].impl = "key"
     if schema.mutation and t.chance(40):
         # `extend schema { mutation: X }` is only accepted when no type carries the default root name
         rename_type(schema, "Mutation", "MutRoot")
